@@ -1,16 +1,61 @@
-use std::time::Instant;
-use compio_driver::{DriverType, ProactorBuilder};
+use std::{io::{Read, Write}, net::{TcpListener, TcpStream}, os::fd::{AsRawFd, OwnedFd}, pin::Pin, sync::Arc, task::{Context, Wake, Waker}, time::{Duration, Instant}};
+use compio_driver::{DriverType, ProactorBuilder, op::{SendZc, SendFlags}, verif};
+use futures_util::Stream;
+struct W; impl Wake for W { fn wake(self: Arc<Self>) {} }
 fn main() {
-    let n = 1000;
-    let t0 = Instant::now();
-    let mut tb = std::time::Duration::ZERO;
-    for _ in 0..n {
-        let t1 = Instant::now();
-        let mut pb = ProactorBuilder::new(); pb.driver_type(DriverType::IoUring); pb.capacity(8);
-        let rt = compio_runtime::RuntimeBuilder::new().with_proactor(pb).build().unwrap();
-        tb += t1.elapsed();
-        drop(rt);
+    let l = TcpListener::bind("127.0.0.1:0").unwrap();
+    // small receive buffer on accepted sockets
+    let v: libc::c_int = 1;
+    unsafe { libc::setsockopt(l.as_raw_fd(), libc::SOL_SOCKET, libc::SO_RCVBUF, &v as *const _ as _, 4); }
+    let a = TcpStream::connect(l.local_addr().unwrap()).unwrap();
+    let (mut b, _) = l.accept().unwrap();
+    a.set_nodelay(true).unwrap();
+    a.set_nonblocking(true).unwrap();
+    b.set_nonblocking(true).unwrap();
+    let mut rb: libc::c_int = 0; let mut len = 4u32;
+    unsafe { libc::getsockopt(b.as_raw_fd(), libc::SOL_SOCKET, libc::SO_RCVBUF, &mut rb as *mut _ as _, &mut len); }
+    println!("peer rcvbuf={rb}");
+    // prefill 8 KiB
+    let zeros = vec![0u8; 8192];
+    let n = (&a).write(&zeros);
+    println!("prefill wrote {n:?}");
+    std::thread::sleep(Duration::from_millis(5));
+    let mut pb = ProactorBuilder::new(); pb.driver_type(DriverType::IoUring); pb.capacity(8);
+    let rt = compio_runtime::RuntimeBuilder::new().with_proactor(pb).build().unwrap();
+    let fd: OwnedFd = a.into();
+    let mut st = rt.enter(|| Box::pin(rt.submit_multi(SendZc::new(fd, vec![0xC1u8, 0xC2, 0xC3, 0xC4, 0xC5], SendFlags::empty()))));
+    let waker = Waker::from(Arc::new(W)); let mut cx = Context::from_waker(&waker);
+    let r = rt.enter(|| Pin::new(&mut st).poll_next(&mut cx));
+    println!("first poll: pending={} log={:?}", r.is_pending(), verif::take());
+    for round in 0..3 {
+        rt.enter(|| { rt.poll_with(Some(Duration::ZERO)); rt.run(); });
+        println!("harvest {round}: log={:?}", verif::take());
+        let r = rt.enter(|| Pin::new(&mut st).poll_next(&mut cx));
+        println!(" poll: {:?}", r.map(|o| o.map(|b| b.0)));
     }
-    let el = t0.elapsed();
-    println!("n={n}: {:?} per create+drop, build part {:?}", el / n as u32, tb / n as u32);
+    std::thread::sleep(Duration::from_millis(50));
+    rt.enter(|| { rt.poll_with(Some(Duration::ZERO)); rt.run(); });
+    println!("after 50ms: log={:?}", verif::take());
+    // drain peer
+    let t0 = Instant::now();
+    let mut got: Vec<u8> = Vec::new(); let mut buf = [0u8; 4096]; let mut total = 0;
+    while t0.elapsed() < Duration::from_millis(500) && got.len() < 5 {
+        match b.read(&mut buf) { Ok(0) => break, Ok(n) => { total += n; got.extend(buf[..n].iter().copied().filter(|&x| x != 0)); }, Err(_) => std::thread::sleep(Duration::from_micros(50)) }
+    }
+    println!("drained {total} bytes in {:?}, payload {:02x?}", t0.elapsed(), got);
+    let t1 = Instant::now();
+    loop {
+        rt.enter(|| { rt.poll_with(Some(Duration::ZERO)); rt.run(); });
+        let lg = verif::take();
+        if !lg.is_empty() { println!("after drain (+{:?}): log={:?}", t1.elapsed(), lg); break; }
+        if t1.elapsed() > Duration::from_secs(2) { println!("no notification within 2s"); break; }
+    }
+    let r = rt.enter(|| Pin::new(&mut st).poll_next(&mut cx));
+    println!(" poll: {:?}", r.map(|o| o.map(|b| b.0)));
+    let r = rt.enter(|| Pin::new(&mut st).poll_next(&mut cx));
+    println!(" poll: {:?}", r.map(|o| o.map(|b| b.0)));
+    let st = Pin::into_inner(st);
+    match st.try_take() { Ok(op) => { use compio_buf::IntoInner; println!("buffer back: {:02x?}", op.into_inner()); } Err(_) => println!("try_take: still running") }
+    drop(rt);
+    println!("end log={:?}", verif::take());
 }
